@@ -233,6 +233,11 @@ pub fn string_domain(tier: Tier, d: &Decl) -> Vec<Val> {
         Tier::Quick => 3,
         Tier::Thorough => 4,
     };
+    string_domain_len(tier, d, l)
+}
+
+/// all strings over the alphabet up to length `l` (+ longer single-character runs around len_char bounds)
+pub fn string_domain_len(tier: Tier, d: &Decl, l: usize) -> Vec<Val> {
     let mut v: Vec<String> = strings_upto(sigma(tier), l);
     // a few longer strings so that len_char bounds above L are crossed from both sides
     let maxb = decl_bounds(d).iter().filter_map(|b| if let Val::U(n) = b { Some(*n as usize) } else { None }).max().unwrap_or(0);
